@@ -47,7 +47,7 @@ ASSUMPTIONS = ["reference closure / participation / lookup / typing computed fro
                "models keep links along associations that are used under a transitive operator acyclic (DESIGN defect (c) "
                "would make attack-graph generation run for ever otherwise); a model on which the classes factory, the model "
                "or the attack-graph generator raises is skipped for the over-approximation clause (other properties); when it "
-               "is the generator that raises on a saturated language, the clause is evaluated for the first such model of a case on each "
+               "is the generator that raises on a saturated language, the clause is evaluated for the first such model of a case (largest vocabulary of the structure only) on each "
                "single-step sub-language instead (one rejected step must not hide the edges of the others); all "
                "single-step sub-languages of a language share assets / associations, so one classes factory and model serve them",
                "any exception raised by LanguageGraph() counts as 'reported' for an ill-formed language"]
@@ -327,7 +327,9 @@ def _overapprox(r, spec, lg, recipe):
         try:
             g = AttackGraph(lg, model)
         except Exception:
-            if not isolated:               # only for the first such model of a case (cost: one generation per step)
+            # only for the first such model of a case, and only for the largest saturation of a structure (targets = owned:
+            # its steps include those of the nav / sets / all vocabularies) -- cost: one generation per step
+            if not isolated and recipe.get("targets") == "owned":
                 isolated = True
                 edges += _overapprox_isolated(r, spec, mrec)
             continue
